@@ -85,6 +85,7 @@ type fnTrans struct {
 	curIdx      int
 	iterCovered map[string]int
 	deferGuard  map[*ssa.Defer]string
+	currentLemma string
 }
 
 // homeOf returns the package that declares the contract text located at where ("file:line"), or nil
